@@ -230,6 +230,35 @@ def fails(case, drv, kind):
     return any(v[0] in ("violation", "known") and (v[1] == kind or v[0] == "known") for v in judge(case, got, drv.ask(line(case))))
 
 
+def stress():
+    """LARGE inputs with a known answer (labelled TESTS; they reach fixed-width counters, recursion depth and
+    quadratic tables that graphs on <= 7 nodes cannot):
+    layered: s -> 4 -> 4 -> 4 -> 4 -> 4 -> 2 -> t (complete between consecutive layers: thousands of directed
+      paths from s to t) plus s <-> t  => s is an ancestor of t, not ancestral, valid_mag False;
+    deep: a directed chain of 400 nodes plus a bidirected edge between its ends => not ancestral, False;
+    chain: a directed chain of 30 nodes => a valid (maximal) MAG, True."""
+    from pywhy_graphs import ADMG
+    from pywhy_graphs.algorithms import valid_mag
+    layers = [["s"]] + [[(k, i) for i in range(4)] for k in range(5)] + [[("m", 0), ("m", 1)], ["t"]]
+    lay = [(a, b) for A, B in zip(layers, layers[1:]) for a in A for b in B]
+    specs = [("layered-24-nodes", lay, [("s", "t")], False),
+             ("deep-chain-400", [(i, i + 1) for i in range(400)], [(0, 400)], False),
+             ("chain-30", [(i, i + 1) for i in range(30)], [], True)]
+    for name, D, B, want in specs:
+        G = ADMG()
+        G.add_edges_from(D, "directed")
+        G.add_edges_from(B, "bidirected")
+        try:
+            with C.time_limit(120):
+                r = valid_mag(G)
+            why = None if r is want else "valid_mag = %r, expected %r" % (r, want)
+        except C.CallTimeout:
+            why = None        # slow is not wrong: inconclusive
+        except BaseException as e:
+            why = "raised %s" % type(e).__name__
+        yield name, why
+
+
 def run(ctx):
     import time
     ev, out = ctx["ev"], ctx["out"]
@@ -243,6 +272,11 @@ def run(ctx):
     ev.assumptions = ["no self loops", "valid_mag / is_maximal are called with the default L = S = {}",
                       "is_maximal is compared with the all-subsets decider on every graph without undirected edges (cyclic "
                       "ones included); with undirected edges only model-vs-code", "has_adc is a helper: only the two facts valid_mag relies on are demanded of it"]
+    for name, why in stress():
+        ev.count("stress:" + name + (":ok" if why is None else ":BAD"))
+        if why is not None:
+            out.violation({"kind": "stress", "name": name},
+                          {"kind": "valid_mag", "detail": why, "input": "see harness/c07.py stress(): " + name})
     bad = []
     corpus = C.load_corpus(PID)
     if corpus:
